@@ -88,6 +88,15 @@ SPECS = [dict(rust="src/geom2/circle2.rs", gen="Circle2", model="Model.Circle", 
     "Arc2_end": _Q + "(a : @Arc2 N), @{G}.Arc2_end N a = @{M}.arc_end N %s" % _AA,
 })]
 
+# geom2/line2.rs: Segment2 construction (the 1e-12 guard) and reversal, as used by the outer-tangent construction
+SPECS.append(dict(rust="src/geom2/line2.rs", gen="Line2Seg", model="Model.Circle", types="Model.Types Model.Circle", fns=[], fields=["Segment2"], stmts={
+    "Segment2_try_new": _Q + "a b, match @{G}.Segment2_try_new N a b with Ok s => Some (Segment2_a s, Segment2_b s) | _ => None end = @{M}.seg_try_new N a b",
+    "Segment2_reversed": _Q + "(s : @Segment2 N), (let r := @{G}.Segment2_reversed N s in (Segment2_a r, Segment2_b r)) = @{M}.seg_reversed N (Segment2_a s, Segment2_b s)",
+}, proofs={
+    # the Result on one side and the option on the other: one case split on the guard, then conversion
+    "Segment2_try_new": "intros; unfold {G}.Segment2_try_new, {M}.seg_try_new; destruct (nltb _ _); reflexivity.",
+}))
+
 
 def translate():
     return C.translator_tie(SPECS)
